@@ -1,5 +1,439 @@
 package rules
 
-import "frpsa/engine"
+import (
+	"encoding/json"
+	"fmt"
+	"go/token"
+	"go/types"
+	"os"
+	"path/filepath"
+	"sort"
+	"strings"
 
-func c16Channels(c *engine.Ctx, li *engine.LockInfo) {}
+	"golang.org/x/tools/go/ssa"
+
+	"frpsa/engine"
+)
+
+// Channel close/send typestate (C16.R3).
+//
+// Every close(x.f) of a struct-field channel is classified by how a second close is prevented:
+//
+//	once     inside a closure run by sync.Once.Do
+//	flag     on a path where a bool field of the receiver was tested false (and is set true), with a mutex held
+//	probe    in the default arm of a select that receives from the same channel, with a mutex held
+//	single   none of the above (a single-shot worker or an owner-terminal Close): accepted only when it is the
+//	         field's only close site; such sites are listed in the evidence
+//
+// The weakest class per field on today's tree is recorded in golden/channel_close_classes.json; a field whose
+// class becomes weaker than recorded (a guard was dropped) is a violation. Fields not in the table are inventoried.
+//
+// Sends: a send on a field channel that is closed anywhere must be recover-protected (inside a closure run by
+// errors.PanicToError, or in a function with a deferred recover), or sit in the function that contains the only close.
+
+type closeSite struct {
+	field *types.Var
+	owner string
+	fn    *ssa.Function
+	in    ssa.Instruction
+	class string
+}
+
+var classRank = map[string]int{"single": 0, "probe": 1, "flag": 1, "once": 2}
+
+func fieldOwner(p *engine.Prog, fv *types.Var) string {
+	for _, pk := range p.Pkgs {
+		if pk.Types == nil || pk.Types != fv.Pkg() {
+			continue
+		}
+		for _, name := range pk.Types.Scope().Names() {
+			tn, ok := pk.Types.Scope().Lookup(name).(*types.TypeName)
+			if !ok {
+				continue
+			}
+			st, ok := tn.Type().Underlying().(*types.Struct)
+			if !ok {
+				continue
+			}
+			for i := 0; i < st.NumFields(); i++ {
+				if st.Field(i) == fv {
+					return strings.TrimPrefix(pk.PkgPath, engine.ModPath+"/") + "." + name + "." + fv.Name()
+				}
+			}
+		}
+	}
+	return fv.Name()
+}
+
+func hasDeferredRecover(f *ssa.Function) bool {
+	found := false
+	engine.ForEachInstr(f, func(in ssa.Instruction) {
+		d, ok := in.(*ssa.Defer)
+		if !ok {
+			return
+		}
+		if cf := engine.CalleeFn(d); cf != nil {
+			engine.ForEachInstr(cf, func(x ssa.Instruction) {
+				if call, ok := x.(ssa.CallInstruction); ok {
+					if b, ok := call.Common().Value.(*ssa.Builtin); ok && b.Name() == "recover" {
+						found = true
+					}
+				}
+			})
+		}
+	})
+	return found
+}
+
+// runBy: is f a closure passed to the named synchronous runner somewhere in its parent?
+func runBy(f *ssa.Function, pkg, name string) bool {
+	if f.Parent() == nil {
+		return false
+	}
+	found := false
+	engine.ForEachInstr(f.Parent(), func(in ssa.Instruction) {
+		call, ok := in.(ssa.CallInstruction)
+		if !ok {
+			return
+		}
+		o := engine.CalleeObj(call)
+		if o == nil || o.Pkg() == nil || o.Pkg().Path() != pkg || o.Name() != name {
+			return
+		}
+		for _, a := range call.Common().Args {
+			if mc, ok := a.(*ssa.MakeClosure); ok && mc.Fn == f {
+				found = true
+			}
+		}
+	})
+	return found
+}
+
+func c16Channels(c *engine.Ctx, li *engine.LockInfo) {
+	p := c.P
+	c.Rule("R3", "channel typestate: close sites of struct-field channels are protected against a second close (once / flag or select-probe under a mutex), unguarded sites are unique per field and never weaker than recorded; a closed channel is not reused; sends on closable channels are recover-protected")
+	var sites []*closeSite
+	for _, f := range p.RepoFuncs() {
+		engine.ForEachInstr(f, func(in ssa.Instruction) {
+			call, ok := in.(ssa.CallInstruction)
+			if !ok {
+				return
+			}
+			b, ok := call.Common().Value.(*ssa.Builtin)
+			if !ok || b.Name() != "close" {
+				return
+			}
+			fv, _ := engine.LoadedField(call.Common().Args[0])
+			if fv == nil {
+				return
+			}
+			s := &closeSite{field: fv, owner: fieldOwner(p, fv), fn: f, in: in, class: "single"}
+			held := li.HeldAt(in)
+			switch {
+			case runBy(f, "sync", "Do"):
+				s.class = "once"
+			case len(held) > 0 && guardedByFlag(f, in):
+				s.class = "flag"
+			case len(held) > 0 && guardedByProbe(f, in, fv):
+				s.class = "probe"
+			}
+			sites = append(sites, s)
+		})
+	}
+	byField := map[*types.Var][]*closeSite{}
+	for _, s := range sites {
+		byField[s.field] = append(byField[s.field], s)
+	}
+	// reference classes
+	ref := map[string]string{}
+	refPath := filepath.Join(verifDirOf(), "golden", "channel_close_classes.json")
+	if b, err := os.ReadFile(refPath); err == nil {
+		_ = json.Unmarshal(b, &ref)
+	} else {
+		c.Undecide("golden/channel_close_classes.json", 0, "reference table missing: %v", err)
+	}
+	var inventory []string
+	for fv, ss := range byField {
+		owner := ss[0].owner
+		weakest := "once"
+		unguarded := 0
+		var where []string
+		for _, s := range ss {
+			if classRank[s.class] < classRank[weakest] {
+				weakest = s.class
+			}
+			if s.class == "single" {
+				unguarded++
+			}
+			where = append(where, p.FuncName(s.fn)+":"+s.class)
+		}
+		sort.Strings(where)
+		inventory = append(inventory, owner+" "+weakest+" ["+strings.Join(where, " ")+"]")
+		key := owner + ">close"
+		pos := ss[0].in.Pos()
+		switch {
+		case unguarded > 1 || (unguarded == 1 && len(ss) > 1):
+			c.Violate(key, pos, where, "channel %s has %d close sites of which %d carry no once/flag/probe guard: two of them can run for the same object (close of closed channel panics)", owner, len(ss), unguarded)
+		case ref[owner] != "" && classRank[weakest] < classRank[ref[owner]]:
+			c.Violate(key, pos, where, "close of %s used to be protected (%s) and is now %s: a second Close panics", owner, ref[owner], weakest)
+		default:
+			c.Hold(key, pos, len(ss), where, "close of %s: class %s", owner, weakest)
+		}
+		_ = fv
+	}
+	sort.Strings(inventory)
+	c.Note("channel close inventory: %s", strings.Join(inventory, " | "))
+	c.Floor(len(byField), 20)
+
+	// closed channel reuse: the field is closed in a method that is not paired with a reset, while another function
+	// creates the channel only when the field is nil (so a closed, non-nil channel is reused)
+	c.Rule("R3b", "a channel field that is (re)created only when it is nil must be reset when it is closed; otherwise the closed channel is reused by the next user (later close or send panics)")
+	nb := 0
+	for fv, ss := range byField {
+		owner := ss[0].owner
+		// conditional creation: a store of a MakeChan to the field on a path where the field was tested == nil
+		condCreate := (*ssa.Function)(nil)
+		for _, f := range p.RepoFuncs() {
+			engine.ForEachInstr(f, func(in ssa.Instruction) {
+				st, ok := in.(*ssa.Store)
+				if !ok {
+					return
+				}
+				if lf, _ := engine.LoadedField(st.Addr); lf != fv {
+					return
+				}
+				if _, isMake := st.Val.(*ssa.MakeChan); !isMake {
+					return
+				}
+				// is there a dominating nil test of the same field?
+				q := &engine.PathQuery{Fn: f, Sink: engine.Is(in)}
+				states, err := q.Run()
+				if err != nil || len(states) == 0 {
+					return
+				}
+				all := true
+				for _, s := range states {
+					isNil, known := s.IsNil(loadOfField(fv))
+					if !(known && isNil) {
+						all = false
+					}
+				}
+				if all {
+					condCreate = f
+				}
+			})
+		}
+		if condCreate == nil {
+			continue
+		}
+		nb++
+		for _, s := range ss {
+			// after the close, is the field reset (store of nil or a new channel) in the same function?
+			reset := false
+			engine.ForEachInstr(s.fn, func(in ssa.Instruction) {
+				st, ok := in.(*ssa.Store)
+				if !ok {
+					return
+				}
+				if lf, _ := engine.LoadedField(st.Addr); lf == fv {
+					reset = true
+				}
+			})
+			key := owner + ">reuse@" + p.FuncName(s.fn)
+			if reset {
+				c.Hold(key, s.in.Pos(), 2, nil, "field reset when closed")
+			} else {
+				c.Violate(key, s.in.Pos(), []string{"created only when nil in " + p.FuncName(condCreate)},
+					"%s is closed here but never reset, while %s re-creates it only when it is nil: an object that is reused after its last member left keeps the closed channel (send/close on it panics)", owner, p.FuncName(condCreate))
+			}
+		}
+	}
+	c.Note("channel fields with nil-conditional creation: %d", nb)
+
+	// sends
+	c.Rule("R3c", "every send on a struct-field channel that is closed somewhere in the program is recover-protected (closure run by errors.PanicToError or function with deferred recover), or is in the function holding the field's only close")
+	ns := 0
+	closedFields := map[*types.Var]bool{}
+	for fv := range byField {
+		closedFields[fv] = true
+	}
+	checkSend := func(f *ssa.Function, in ssa.Instruction, ch ssa.Value, what string) {
+		fv, _ := engine.LoadedField(ch)
+		via := ""
+		if fv == nil {
+			// a channel parameter: stitch to the arguments of the static call sites (one level)
+			prm, ok := ch.(*ssa.Parameter)
+			if !ok {
+				if fvv, ok2 := ch.(*ssa.FreeVar); ok2 {
+					if b := engine.ClosureBinding(fvv); b != nil {
+						if pp, ok3 := b.(*ssa.Parameter); ok3 {
+							prm, ok = pp, true
+						}
+					}
+				}
+			}
+			if !ok || prm == nil {
+				return
+			}
+			root := prm.Parent()
+			idx := -1
+			for i, q := range root.Params {
+				if q == prm {
+					idx = i
+				}
+			}
+			for _, g := range p.RepoFuncs() {
+				engine.ForEachInstr(g, func(x ssa.Instruction) {
+					call, ok := x.(ssa.CallInstruction)
+					if !ok || engine.CalleeFn(call) != root || idx < 0 || idx >= len(call.Common().Args) {
+						return
+					}
+					a := call.Common().Args[idx]
+					if ct, ok := a.(*ssa.ChangeType); ok {
+						a = ct.X
+					}
+					if lf, _ := engine.LoadedField(a); lf != nil && closedFields[lf] {
+						fv = lf
+						via = " (passed as parameter from " + p.FuncName(g) + ")"
+					}
+				})
+			}
+			if fv == nil {
+				return
+			}
+		}
+		if !closedFields[fv] {
+			return
+		}
+		ns++
+		owner := fieldOwner(p, fv)
+		key := fmt.Sprintf("%s>send@%s", owner, p.FuncName(f))
+		protected := runBy(f, "github.com/fatedier/golib/errors", "PanicToError") || hasDeferredRecover(f)
+		// same function as the only close
+		if !protected && len(byField[fv]) == 1 {
+			root := f
+			for root.Parent() != nil {
+				root = root.Parent()
+			}
+			croot := byField[fv][0].fn
+			for croot.Parent() != nil {
+				croot = croot.Parent()
+			}
+			if root == croot && f == byField[fv][0].fn {
+				protected = true
+			}
+		}
+		c.Check(protected, key, in.Pos(), 2, []string{what + via},
+			"send on %s, which is closed elsewhere, is recover-protected (an unprotected send racing with the close is a fatal panic)", owner)
+	}
+	for _, f := range p.RepoFuncs() {
+		engine.ForEachInstr(f, func(in ssa.Instruction) {
+			switch x := in.(type) {
+			case *ssa.Send:
+				checkSend(f, in, x.Chan, "send statement")
+			case *ssa.Select:
+				for _, st := range x.States {
+					if st.Dir == types.SendOnly {
+						checkSend(f, in, st.Chan, "select send")
+					}
+				}
+			}
+		})
+	}
+	c.Floor(ns, 10)
+}
+
+// guardedByFlag: every path to the close passes a test of a bool field of the receiver with outcome false.
+func guardedByFlag(f *ssa.Function, in ssa.Instruction) bool {
+	q := &engine.PathQuery{Fn: f, Sink: engine.Is(in)}
+	states, err := q.Run()
+	if err != nil || len(states) == 0 {
+		return false
+	}
+	for _, s := range states {
+		ok := false
+		for _, l := range s.Lits {
+			if l.Op != token.ILLEGAL || l.Val {
+				continue
+			}
+			if fv, _ := engine.LoadedField(l.X); fv != nil {
+				if b, isB := fv.Type().Underlying().(*types.Basic); isB && b.Kind() == types.Bool {
+					ok = true
+				}
+			}
+		}
+		if !ok {
+			return false
+		}
+	}
+	return true
+}
+
+// guardedByProbe: the close is reached only through the default arm of a select that receives from the same field.
+func guardedByProbe(f *ssa.Function, in ssa.Instruction, fv *types.Var) bool {
+	q := &engine.PathQuery{Fn: f, Sink: engine.Is(in)}
+	states, err := q.Run()
+	if err != nil || len(states) == 0 {
+		return false
+	}
+	for _, s := range states {
+		ok := false
+		for _, l := range s.Lits {
+			// select index comparisons: Extract(select)#0 == k
+			var ex *ssa.Extract
+			if e, isE := l.X.(*ssa.Extract); isE {
+				ex = e
+			}
+			if ex == nil {
+				continue
+			}
+			sel, isSel := ex.Tuple.(*ssa.Select)
+			if !isSel || sel.Blocking {
+				continue
+			}
+			for _, st := range sel.States {
+				lf, _ := engine.LoadedField(st.Chan)
+				if lf == nil || st.Dir != types.RecvOnly {
+					continue
+				}
+				// the probed channel is the one being closed, or another channel closed in this same function
+				// (Close probes one "closed" channel and then closes the rest)
+				if lf == fv || closesField(f, lf) {
+					ok = true
+				}
+			}
+		}
+		if !ok {
+			return false
+		}
+	}
+	return true
+}
+
+func closesField(f *ssa.Function, fv *types.Var) bool {
+	found := false
+	engine.ForEachInstr(f, func(in ssa.Instruction) {
+		if call, ok := in.(ssa.CallInstruction); ok {
+			if b, ok := call.Common().Value.(*ssa.Builtin); ok && b.Name() == "close" {
+				if lf, _ := engine.LoadedField(call.Common().Args[0]); lf == fv {
+					found = true
+				}
+			}
+		}
+	})
+	return found
+}
+
+func verifDirOf() string {
+	if d := os.Getenv("VERIF_DIR"); d != "" {
+		return d
+	}
+	exe, err := os.Executable()
+	if err == nil {
+		d := filepath.Dir(filepath.Dir(exe))
+		if _, err := os.Stat(filepath.Join(d, "properties.jsonl")); err == nil {
+			return d
+		}
+	}
+	return "/verif"
+}
